@@ -3,6 +3,7 @@
 Exit 0 = property held on everything explored; exit 1 + 'VIOLATION property=<id> replay=<path>'."""
 import argparse, importlib, os, sys
 sys.path.insert(0, os.path.dirname(os.path.abspath(__file__)))
+sys.path.insert(0, os.path.join(os.path.dirname(os.path.abspath(__file__)), "props"))
 import vlib
 
 
@@ -13,7 +14,7 @@ def main():
     ap.add_argument("--replay", default=None)
     a = ap.parse_args()
     seed = int(os.environ.get("VERIF_SEED", "1"))
-    mod = importlib.import_module("props." + a.prop)
+    mod = importlib.import_module(a.prop)
     ctx = vlib.Ctx(a.prop, a.tier, seed)
     try:
         if a.replay:
